@@ -38,32 +38,35 @@ def gen_network(rng, max_units, force=None):
     if force == "close":
         acts = ["relu", "relu", "hardtanh", "leaky"]
         nlin = rng.choice([1, 2])
+    if force == "duphead":
+        acts = ["relu", "relu", "leaky", "hardtanh"]
+        nlin = rng.choice([2, 3])
     w_fixed = rng.choice([1, 2, 2, 3])
     for li in range(nlin):
-        w = w_fixed if force == "leaky" else rng.choice([2, 3] if force in ("bare", "close") else [1, 2, 2, 3])
+        w = w_fixed if force == "leaky" else rng.choice([2, 3] if (force in ("bare", "close") or (force == "duphead" and li == nlin - 1)) else [1, 2, 2, 3])
         M = gen.mat(rng, w, dim, pzero=0.15)
         c = gen.vec(rng, w)
         s = rng.random()
-        if force == "dup" or s < 0.1 or (force == "bare" and s < 0.6):
+        if force == "dup" or s < 0.1 or (force == "bare" and s < 0.9):
             if w >= 2:
                 M[1] = list(M[0])
                 c[1] = c[0]          # coincident breakpoints / argmax ties on whole regions
-                if rng.random() < 0.5:
+                if rng.random() < (0.75 if force == "bare" else 0.5):
                     c[1] = c[0] + rng.choice([FR(1), FR(-1), FR(1, 2), FR(-3)])      # parallel: an input-independent comparison
         elif force == "close" and li == 0 and w >= 2:
             # two breakpoints 2^-21 / 2^-22 apart: a region far thinner than tau = 1e-6 but far wider than any LP tolerance
             M[1] = list(M[0])
-            if rng.random() < 0.6:
+            if rng.random() < 0.85:
                 c[0] = -abs(c[0]) - FR(1, 2)      # the origin (the LP's usual vertex for the first region) lies away from the thin region
-            c[1] = c[0] + rng.choice([1, -1]) * rng.choice([FR(1, 2**21), FR(1, 2**22)])      # thin region behind a label-1 or a label-0 edge
-        elif s < 0.18:
+            c[1] = c[0] + rng.choice([1, 1, -1]) * rng.choice([FR(1, 2**21), FR(1, 2**22)])      # thin region behind a label-0 (mostly) or a label-1 edge
+        elif s < 0.18 or (force == "zerorow" and li == 0):
             M[0] = [FR(0)] * dim     # zero row: constant neuron
         elif s < 0.25 and w >= 2:
             M[1] = [-v for v in M[0]]
             c[1] = -c[0]
         layers.append({"t": "linear", "M": M, "c": c})
         dim = w
-        if li == nlin - 1 and (rng.random() < 0.4 or force == "bare"):
+        if li == nlin - 1 and (rng.random() < 0.4 or force in ("bare", "duphead")):
             break
         for r in range(dim):
             if units >= max_units:
@@ -71,17 +74,29 @@ def gen_network(rng, max_units, force=None):
             a = rng.choice(acts)
             if force == "close" and li == 0 and r < 2:
                 a = "relu"      # the two close breakpoints belong to the same kind of activation
+            if force == "zerorow" and li == 0 and r == 0:
+                a = rng.choice(["relu", "leaky", "hardtanh"])      # the first activated neuron has a constant pre-activation
             if a == "none":
                 continue
             units += 1
             if a == "leaky":
-                layers.append({"t": "leaky", "row": r, "alpha": rng.choice([FR(0), FR(1, 4), FR(1, 2), FR(2), FR(-1)])})
+                alpha = rng.choice([FR(0), FR(1, 4), FR(1, 2), FR(2), FR(-1)])
+                if force == "leaky":
+                    alpha = [FR(1, 4), FR(2), FR(-1), FR(1, 2)][li % 4]      # a different slope in every layer
+                layers.append({"t": "leaky", "row": r, "alpha": alpha})
             else:
                 layers.append({"t": a, "row": r})
             if rng.random() < 0.12 and units < max_units:
                 layers.append(dict(layers[-1]))      # the same neuron activated twice in a row (not idempotent for leaky / hard sigmoid)
                 units += 1
-    head = rng.choice(["argmax", "classchar"] if force == "bare" else ["none", "none", "argmax", "classchar"])
+    if force == "duphead":
+        # two identical logits (row and bias) under a head, below at least one activation: the head's comparison is constant on
+        # every region, also on regions that are not the root's
+        last = [l for l in layers if l["t"] == "linear"][-1]
+        if len(last["M"]) >= 2 and units >= 1:
+            last["M"][1] = list(last["M"][0])
+            last["c"][1] = last["c"][0]
+    head = rng.choice(["argmax", "classchar"] if force in ("bare", "duphead") else ["none", "none", "argmax", "classchar"])
     if dim >= 2 and head == "argmax":
         layers.append({"t": "argmax"})
     elif dim >= 2 and head == "classchar":
@@ -121,7 +136,7 @@ def make_cases(chk):
     quick = chk.tier == "quick"
     cases = []
     for i in range(160 if quick else 3000):
-        n, layers = gen_network(rng, 6 if quick else 9, force={0: "dup", 4: "leaky", 8: "bare", 6: "close"}.get(i % 11))
+        n, layers = gen_network(rng, 6 if quick else 9, force={0: "dup", 4: "leaky", 8: "bare", 6: "close", 2: "duphead", 10: "zerorow"}.get(i % 11))
         kind, pre = gen_pre(rng, n)
         steps = [{"op": "layers", "name": "L", "layers": netref.layers_to_driver(layers)}]
         if pre is not None:
